@@ -319,7 +319,7 @@ def check_paths(spec, tier, r=None, only=None):
                 for e, ref in zip(envs, refs):
                     if refsem.is_skip(ref) or (ref[0] == "err" and ref[1] == "TypeError"):
                         continue
-                    got = refsem.outcome(refsem.evaluate, bs, dict(e))
+                    got = refsem.outcome(refsem.evaluate, to_spec(back, ordered=True), dict(e))
                     if not outcomes_close(ref, got):
                         return ("import:value", f"ASTToPymbolic(to_python_ast(e)) = {show(bs)}: "
                                 f"expected {refsem.show_outcome(ref)} got "
